@@ -269,6 +269,11 @@ func (s *Server) Subscribe(stream pb.GNMI_SubscribeServer) error {
 	}
 
 	c.target = c.sr.GetSubscribe().GetPrefix().GetTarget()
+	// reject single device subscription if not allowed by ACL, before telling
+	// the caller anything about the target (not even whether it exists)
+	if c.target != "*" && !c.acl.Check(c.target) {
+		return status.Errorf(codes.PermissionDenied, "not authorized for target %q", c.target)
+	}
 	if !s.c.HasTarget(c.target) {
 		return status.Errorf(codes.NotFound, "no such target: %q", c.target)
 	}
@@ -284,10 +289,6 @@ func (s *Server) Subscribe(stream pb.GNMI_SubscribeServer) error {
 	c.queue = coalesce.NewQueue()
 	defer c.queue.Close()
 
-	// reject single device subscription if not allowed by ACL
-	if c.target != "*" && !c.acl.Check(c.target) {
-		return status.Errorf(codes.PermissionDenied, "not authorized for target %q", c.target)
-	}
 	// This error channel is buffered to accept errors from all goroutines spawned
 	// for this RPC.  Only the first is ever read and returned causing the RPC to
 	// terminate.
